@@ -14,11 +14,11 @@ func init() {
 	register("C15",
 		"Structural necessary conditions of C15 decided from /repo's SSA: (nul-first) in the function that consumes `git config --list -z`, every search for the key/value separator LF operates on a value already bounded by a search for the record terminator NUL, so a key without a value cannot swallow the next entry; (total) every index/slice expression of the gitconfig reader, the key-prefix matcher and the refgroup key handling is discharged by the bounds engine and the record cursor advances by at least one byte per iteration; (scope) the listing command carries no --local/--global/--system/--file restriction, group membership is decided by the key-prefix matcher whose truth table is checked (boundary byte '.'), and a group is augmented from exactly the keys name/include/includeregexp/exclude/excluderegexp with the right polarity and pattern kind, folded in listing order. Not decided: agreement with git's own parser on arbitrary configurations.",
 		[]string{"git config --list -z prints key LF value NUL per entry, key NUL for a valueless key", "git lower-cases section and variable names"},
-		ruleC15NulFirst, ruleC15Total, ruleC15Progress, ruleC15Scope, ruleC15EachGroup)
+		ruleC15NulFirst, ruleC15Total, ruleC15Progress, ruleC15Scope, ruleC15EachGroup, ruleC15LastDot)
 	register("C16",
-		"Structural necessary conditions of C16 decided from /repo's SSA: (bounds) every index/slice expression in package git's object and listing parsers is discharged from dominating facts in a zone domain (an undischarged obligation is a crash on some input); (progress) each parser cursor advances by at least one byte on every successful step, so no input loops forever; (grammar) tree entry = octal mode, SP, name, NUL, raw id whose length constant agrees between the length test, the copy bounds, the advance and len(OID); the commit parser appends parents only under `parent` and has single, duplicate-rejecting arms for `tree`, the tag parser for `object` and `type`; the header block handed to the iterator ends at the first blank line; (formats) the for-each-ref format has four space-separated atoms in the order the reader indexes them and cat-file's default three-field header is read as fields 0,1,2. Not decided: losslessness (re-serialisation equality), behaviour beyond absence of panics and non-termination.",
+		"Structural necessary conditions of C16 decided from /repo's SSA: (bounds) every index/slice expression in package git's object and listing parsers is discharged from dominating facts in a zone domain (an undischarged obligation is a crash on some input); (progress) each parser cursor advances by at least one byte on every successful step, so no input loops forever; (grammar) tree entry = octal mode, SP, name, NUL, raw id whose length constant agrees between the length test, the copy bounds, the advance and len(OID); the commit parser appends parents only under `parent` and has single, duplicate-rejecting arms for `tree`, the tag parser for `object` and `type`; the header block handed to the iterator ends at the first blank line; (formats) the for-each-ref format has four space-separated atoms in the order the reader indexes them and cat-file's default three-field header is read as fields 0,1,2; an object id is only ever built from input whose length was compared with the id length (a longer hex string would index past the array, a shorter one be accepted zero-padded); a loop over object headers leaves when the iterator reports an error (the iterator does not advance on failure). Not decided: losslessness (re-serialisation equality), behaviour beyond absence of panics and non-termination.",
 		[]string{"library post-conditions of strings/bytes Index*, Split, HasPrefix; bufio ReadString/ReadBytes return the delimiter on a nil error", "zone (difference-bound) abstraction of int arithmetic; wrap-around of int is not modelled"},
-		ruleC16Bounds, ruleC16Progress, ruleC16Grammar, ruleC16Formats)
+		ruleC16Bounds, ruleC16Progress, ruleC16Grammar, ruleC16Formats, ruleC16OIDLength, ruleC16HeaderLoops)
 }
 
 // ---------------- cursors / progress ----------------
@@ -754,6 +754,38 @@ func ruleC15NulFirst(c *Ctx) {
 	if !nulSearch {
 		c.violate("C15.nul-first", name+":nul-search", f.Pos(), name, "the output of `config --list -z` is never split at NUL")
 	}
+	// the record cursor only ever stands at the start of a record: it starts as
+	// the whole output and moves to (position of a NUL)+1
+	for _, l := range loopsOf(f) {
+		for _, in := range l.Head.Instrs {
+			phi, ok := in.(*ssa.Phi)
+			if !ok || !isStringish(phi.Type()) {
+				continue
+			}
+			isCursor := false
+			for i, pred := range l.Head.Preds {
+				if l.Blocks[pred] {
+					if _, _, base := advanceChainCut(phi.Edges[i]); base == ssa.Value(phi) {
+						isCursor = true
+					}
+				}
+			}
+			if !isCursor {
+				continue
+			}
+			bad := ""
+			for _, e := range phi.Edges {
+				if ok, why := c.recordAligned(e, phi, 0); !ok {
+					bad = why
+				}
+			}
+			if bad == "" {
+				c.hold("C15.nul-first", name+":record-start", phi.Pos(), "the cursor is the whole listing, then always the byte after a NUL")
+			} else {
+				c.violate("C15.nul-first", name+":record-start", phi.Pos(), name, "the record cursor can be positioned somewhere other than the start of the listing or the byte after a NUL ("+bad+"): parsing would start in the middle of a foreign key or value and read its tail as an entry")
+			}
+		}
+	}
 	if n == 0 {
 		c.violate("C15.nul-first", name+":lf-search", f.Pos(), name, "keys are never separated from values at LF")
 	}
@@ -1002,6 +1034,53 @@ func (c *Ctx) checkAugment() {
 	for k := range want {
 		if !seen[k] && c.seen("C15.scope", "augment:key:"+k) == nil {
 			c.violate("C15.scope", "augment:key:"+k, aug.Pos(), name, "the gitconfig key refgroup.<g>."+k+" is not honoured")
+		}
+	}
+	// every listed entry is looked at: each iteration of the loop over the
+	// entries reaches the dispatch on the entry's key (no skipping of
+	// repeated or "already seen" entries — a later repetition must re-apply)
+	var keyCmps []*ssa.BinOp
+	allInstrs(aug, func(in ssa.Instruction) {
+		cmp, ok := in.(*ssa.BinOp)
+		if !ok || (cmp.Op != token.EQL && cmp.Op != token.NEQ) {
+			return
+		}
+		val := cmp.X
+		if _, isC := constStr(cmp.Y); !isC {
+			if _, isC2 := constStr(cmp.X); !isC2 {
+				return
+			}
+			val = cmp.Y
+		}
+		if _, p := c.fieldPath(c.resolve(val)); len(p) > 0 && p[len(p)-1] == "Key" {
+			keyCmps = append(keyCmps, cmp)
+		}
+	})
+	var first *ssa.BinOp
+	for _, k := range keyCmps {
+		dominatesAll := true
+		for _, o := range keyCmps {
+			if o != k && !instrDominates(k, o) {
+				dominatesAll = false
+			}
+		}
+		if dominatesAll {
+			first = k
+		}
+	}
+	if first != nil {
+		if l := innermostLoop(loopsOf(aug), first.Block()); l != nil {
+			ec := c.newEventCounter(func(in ssa.Instruction) int {
+				if in == ssa.Instruction(first) {
+					return 1
+				}
+				return 0
+			}, false)
+			if r := ec.perIteration(l); r.Min == 1 && r.Max == 1 {
+				c.hold("C15.scope", "augment:every-entry", first.Pos(), "every entry of the section reaches the dispatch on its key")
+			} else {
+				c.violate("C15.scope", "augment:every-entry", first.Pos(), name, fmt.Sprintf("an entry of the section reaches the dispatch on its key %s times (must be exactly once): entries can be skipped, so a later include/exclude that repeats an earlier one would not be re-applied in git's listing order", rangeStr(r)))
+			}
 		}
 	}
 	// name
@@ -1286,4 +1365,232 @@ func (c *Ctx) sepByte(v ssa.Value) (int64, bool) {
 		}
 	}
 	return 0, false
+}
+
+func ruleC15LastDot(c *Ctx) { lastDotRule(c, "C15.each-group") }
+
+// ruleC16OIDLength: every function of package git that turns variable-length
+// input into an OID succeeds only after comparing that input's length with
+// the id length (or delegates to a function that does).
+func ruleC16OIDLength(c *Ctx) {
+	oidT := c.namedType("/git", "OID")
+	if oidT == nil {
+		c.violate("C16.formats", "oid-length", token.NoPos, "", "type git.OID not found")
+		return
+	}
+	var L int64 = -1
+	if st, ok := oidT.Underlying().(*types.Struct); ok && st.NumFields() == 1 {
+		if a, ok := st.Field(0).Type().Underlying().(*types.Array); ok {
+			L = a.Len()
+		}
+	}
+	n := 0
+	for _, f := range c.ModFns {
+		if pkgOf(f) != modPath+"/git" || f.Parent() != nil || f.Signature.Recv() != nil {
+			continue
+		}
+		sig := f.Signature
+		if sig.Results().Len() != 2 || !types.Identical(sig.Results().At(0).Type(), oidT) || !isErrorType(sig.Results().At(1).Type()) || sig.Params().Len() != 1 {
+			continue
+		}
+		pt := sig.Params().At(0).Type()
+		if !isStringish(pt) {
+			continue
+		}
+		n++
+		name := fnName(f)
+		bad := false
+		for _, ret := range returnsOf(f) {
+			success := false
+			for _, v := range c.resultValues(ret, 1) {
+				if isNilConst(v) {
+					success = true
+				}
+			}
+			if !success {
+				continue // error return, or the results of a delegate are passed on
+			}
+			okLen := guardedBy(ret.Block(), func(cond ssa.Value, truth bool) bool {
+				cmp, ok := isCmp(cond, token.EQL, token.NEQ)
+				if !ok || (cmp.Op == token.EQL) != truth {
+					return false
+				}
+				lenSide, constSide := cmp.X, cmp.Y
+				if _, isCall := lenSide.(*ssa.Call); !isCall {
+					lenSide, constSide = cmp.Y, cmp.X
+				}
+				l, ok := lenSide.(*ssa.Call)
+				if !ok || !isBuiltin(&l.Call, "len") {
+					return false
+				}
+				k, ok := constInt(constSide)
+				if !ok {
+					// hex.EncodedLen(20) / hex.DecodedLen(40)
+					if cl, isCall := constSide.(*ssa.Call); isCall && len(cl.Call.Args) == 1 {
+						if a, isC := constInt(cl.Call.Args[0]); isC {
+							switch calleeQ(&cl.Call) {
+							case "encoding/hex.EncodedLen":
+								k, ok = 2*a, true
+							case "encoding/hex.DecodedLen":
+								k, ok = a/2, true
+							}
+						}
+					}
+				}
+				return ok && (k == L || k == 2*L)
+			})
+			if !okLen {
+				bad = true
+				c.violate("C16.formats", "oid-length:"+name, ret.Pos(), name, fmt.Sprintf("%s can succeed without having compared the length of its input with the object id length (%d bytes / %d hex digits): a longer input indexes past the id array (panic), a shorter one is accepted zero-padded", f.Name(), L, 2*L))
+			}
+		}
+		if !bad {
+			c.hold("C16.formats", "oid-length:"+name, f.Pos(), "succeeds only after the length test, or passes on the result of a function that makes it")
+		}
+	}
+	if n == 0 {
+		c.notDecided("C16.formats", "oid-length", token.NoPos, "no function of package git builds an OID from a string or byte slice")
+	}
+}
+
+// ruleC16HeaderLoops: ObjectHeaderIter.Next does not advance when it fails,
+// so a loop `for iter.HasNext()` that goes on after a failed Next never ends.
+// On the non-nil edge of Next's error no path may lead back to the loop head.
+func ruleC16HeaderLoops(c *Ctx) {
+	next := c.fn("/git", "*ObjectHeaderIter", "Next")
+	if next == nil {
+		return
+	}
+	n := 0
+	for _, ci := range c.Callers[next] {
+		call, ok := ci.(*ssa.Call)
+		if !ok {
+			continue
+		}
+		f := call.Parent()
+		l := innermostLoop(loopsOf(f), call.Block())
+		if l == nil {
+			continue
+		}
+		n++
+		var errV ssa.Value
+		for _, r := range *call.Referrers() {
+			if ex, ok := r.(*ssa.Extract); ok && isErrorType(ex.Type()) {
+				errV = ex
+			}
+		}
+		key := "header-loop:" + fnName(f)
+		if errV == nil {
+			c.violate("C16.progress", key, call.Pos(), fnName(f), "the error of ObjectHeaderIter.Next is not looked at inside a loop over the headers: on malformed input the iterator does not advance and the loop never ends")
+			continue
+		}
+		// blocks where err != nil is known and from which the loop head is reachable without leaving the loop
+		stuck := false
+		for b := range l.Blocks {
+			nonNil := false
+			for _, fct := range factsAt(b) {
+				cond, truth := normCond(fct.Cond, fct.Truth)
+				if m, isNil := errNilFact(cond, truth, errV); m && !isNil {
+					nonNil = true
+				}
+			}
+			if !nonNil {
+				continue
+			}
+			// b is on the failure branch and still inside the loop: can it reach the head?
+			seen := map[*ssa.BasicBlock]bool{}
+			st := []*ssa.BasicBlock{b}
+			for len(st) > 0 {
+				x := st[len(st)-1]
+				st = st[:len(st)-1]
+				if seen[x] {
+					continue
+				}
+				seen[x] = true
+				for _, s := range x.Succs {
+					if s == l.Head {
+						stuck = true
+					}
+					if l.Blocks[s] {
+						st = append(st, s)
+					}
+				}
+			}
+		}
+		if stuck {
+			c.violate("C16.progress", key, call.Pos(), fnName(f), "after ObjectHeaderIter.Next reports an error the loop continues: Next does not advance on failure, so the same malformed line is read forever")
+		} else {
+			c.hold("C16.progress", key, call.Pos(), "a failed Next leaves the loop")
+		}
+	}
+	if n < 2 {
+		c.notDecided("C16.progress", "header-loops", token.NoPos, fmt.Sprintf("%d loops call ObjectHeaderIter.Next (commit and tag parsers expected)", n))
+	}
+}
+
+// recordAligned: v is the listing itself, or a tail of an aligned value that
+// starts right after a NUL.
+func (c *Ctx) recordAligned(v ssa.Value, cursor *ssa.Phi, depth int) (bool, string) {
+	if depth > 8 {
+		return false, "value chain too deep"
+	}
+	if v == ssa.Value(cursor) {
+		return true, ""
+	}
+	v = c.resolve(v)
+	if v == ssa.Value(cursor) {
+		return true, ""
+	}
+	switch x := v.(type) {
+	case *ssa.Extract:
+		call, ok := x.Tuple.(*ssa.Call)
+		if !ok {
+			return false, "not the listing"
+		}
+		q := calleeQ(&call.Call)
+		if (q == "(*os/exec.Cmd).Output" || q == "(*os/exec.Cmd).CombinedOutput") && x.Index == 0 {
+			return true, ""
+		}
+		if (q == "bytes.Cut" || q == "strings.Cut") && x.Index == 1 {
+			if sep, ok := c.sepByte(call.Call.Args[1]); ok && sep == 0 {
+				return c.recordAligned(call.Call.Args[0], cursor, depth+1)
+			}
+			return false, "cut at a byte other than NUL"
+		}
+		return false, "result of " + q
+	case *ssa.Phi:
+		for _, e := range x.Edges {
+			if ok, why := c.recordAligned(e, cursor, depth+1); !ok {
+				return false, why
+			}
+		}
+		return true, ""
+	case *ssa.Convert:
+		return c.recordAligned(x.X, cursor, depth+1)
+	case *ssa.Slice:
+		if x.High != nil {
+			return false, "a bounded sub-slice"
+		}
+		if ok, why := c.recordAligned(x.X, cursor, depth+1); !ok {
+			return false, why
+		}
+		if x.Low == nil {
+			return true, ""
+		}
+		if k, ok := constInt(x.Low); ok && k == 0 {
+			return true, ""
+		}
+		// low = IndexByte(base, 0) + 1
+		if bo, ok := x.Low.(*ssa.BinOp); ok && bo.Op == token.ADD {
+			if k, ok := constInt(bo.Y); ok && k == 1 {
+				if call, ok := bo.X.(*ssa.Call); ok {
+					if sep, ok := c.sepOfIndexCall(call); ok && sep == 0 && !strings.Contains(calleeQ(&call.Call), ".Last") {
+						return true, ""
+					}
+				}
+			}
+		}
+		return false, "re-sliced at " + c.pos(x.Pos()) + " at an offset that is not (index of NUL)+1"
+	}
+	return false, fmt.Sprintf("%T", v)
 }
